@@ -5,6 +5,8 @@ From Coq Require Import List NArith ZArith Bool Lia.
 From I18n Require Import Lib.Outcome Lib.CFmtSyntax Generated.CInfo Model.FmtC Model.FmtCPy Generated.FmtCSrc.
 Import ListNotations.
 Local Open Scope Z_scope.
+(* a proof that diverges after an edit of the translated code must fail, not hang the check *)
+Set Default Timeout 120.
 
 (* the model's outcome in the vocabulary of the translation *)
 Definition emb {A} (o : outcome A cerr) : cres A :=
@@ -84,7 +86,8 @@ Theorem src_add_argument_eq : forall maxd s st n v,
   = emb (do st' <- add_argument s st n v; Ok (st_entries st', st_next st')).
 Proof.
   intros maxd s [m nx w] n v. unfold src_add_argument, add_argument, amap_add. cbn [st_entries st_next st_warn].
-  destruct n as [k|]; destruct nx as [j|]; cbn [ccatch add_handlers];
+  cbv zeta.
+  destruct n as [k|]; destruct nx as [j|]; cbn [ccatch add_handlers]; rewrite ?Z.gtb_ltb;
     repeat match goal with
            | |- context [if ?c then _ else _] => destruct c eqn:?
            | |- context [match ?l with [] => _ | _ :: _ => _ end] => destruct l
